@@ -59,7 +59,8 @@ def main():
                     pk = pm.group(1) if pm else ""
                     pk = pk[:-5] if pk.endswith("_test") else pk
                     cand = [t for t in touched if os.path.basename(t) == pk] or [t for t in ["sumdb", "sumdb/tlog", "sumdb/note", "sumdb/dirhash", "modfile", "module", "semver", "zip"] if os.path.basename(t) == pk]
-                    dest = cand[0] if cand else touched[0]
+                    dest = cand[0] if cand else "zz_seeded_demo"  # a standalone test package using the public API
+                os.makedirs(os.path.join(repo, dest), exist_ok=True)
                 shutil.copy(p, os.path.join(repo, dest, f))
                 yield dest
         demo_pkgs = sorted(set(place_demos()))
